@@ -428,7 +428,7 @@ def csum_stress(rng):
     if k == 1:
         return b'\xff\xff\xff\xff' + rng.choice([b'\x00\x01', b'\x00\x02', b'\x01', b'\xff\xfe', b''])
     if k == 2:
-        return rng.bytes(rng.choice([1000, 1399, 1464, 1465, 1471, 1472]))
+        return rng.bytes(rng.choice([1000, 1399, 1464, 1465, 1471, 1472, 1473, 1475, 1476]))
     if k == 3:
         return (b'\xff\xfe' * 300)[:rng.choice([8, 9, 600, 599])]
     return rng.bytes(rng.choice([0, 4, 8, 13, 56, rng.below(100)]))
